@@ -548,8 +548,13 @@ package mqtt
 //@ chaninv mqtt.Client.connSem(v): true
 
 // dialAndConnect: dial, CONNECT/CONNACK handshake; on success a live connection and its reader.
+// dialAndConnect: the goroutine that lets Close interrupt a slow handshake is the environment here (its
+// two channels are shared with it); what is checked of the hand-over is that the send after the handshake
+// cannot block, whether or not that goroutine is still around (F6, fixed).
 //@ func mqtt.(*Client).dialAndConnect -> conn, bufr, err
-//@ unverified
+//@ requires c.persistence != nil && c.ctx != nil && c.Dialer != nil && config != nil
+//@ requires len(config.UserName) <= 65535 && len(config.Password) <= 65535 && len(config.Will.Topic) <= 65535 && len(config.Will.Message) <= 65535
+//@ requires st_has(c.persistence, 0) ==> st_len(c.persistence, 0) <= 65535
 //@ modifies wire, wire_len, wclosed, wdl, rdl, c.InNewSession.v, cpos
 //@ ensures err == nil ==> conn != nil && bufr != nil && conn != boxed(connSignal, 0) && conn != boxed(connSignal, 1) && rx_src(bufr) == conn && rx_bufref(bufr) > 0 && fresh_ref(rx_bufref(bufr)) && rx_size(bufr) == readBufSize
 //@ ensures err != nil ==> conn == nil && bufr == nil
@@ -604,6 +609,7 @@ package mqtt
 // the returned reader stands exactly behind the four CONNACK bytes of the connection's stream.
 //@ func mqtt.(*Client).handshake -> r, err
 //@ requires conn != nil && config != nil && cfgok(config, clientID)
+//@ modifies wire(conn), wire_len(conn), wdl(conn), rdl(conn), cpos(conn), c.InNewSession.v
 //@ at[C18] call writeTo#1: assert wire_len(conn) == old(wire_len(conn))
 //@ ensures[C13,C18] err == nil ==> r != nil && rx_stream(r)[0] == 32 && rx_stream(r)[1] == 2 && rx_stream(r)[3] == 0 && (rx_stream(r)[2] == 0 || (rx_stream(r)[2] == 1 && !config.CleanSession))
 //@ ensures[C06,C18] err == nil ==> rx_src(r) == conn && rx_base(r) == old(cpos(conn)) && rx_pos(r) == 4
